@@ -18,7 +18,7 @@ ID = "C01"
 LEVEL = "exploration"
 KAP = 0.4
 RULE = (
-    "Hypothesis draws a profile family as functions of z (log-law + MOST psi, power law, log + offset wind; MOST kappa u* z/phi, "
+    "Hypothesis draws a profile family as functions of z (log-law + MOST psi, power law, log + offset wind, or - one case in eight - wind and Kz exactly constant with only Kx, Ky varying; MOST kappa u* z/phi, "
     "power-law, linear diffusivity; anisotropy factors 2^[-2,2], in half of the cases with a height-dependent ratio (Kx/Kz ~ z^±0.2..0.5, Ky = ay (Kz + offset)); any wind angle; optional linear turning with height), z0 relative "
     "to the column, z_m in [2,20] (column top 2 z_m), a vertical grid kind in {uniform, log-uniform, BLDFM-stretched}, a base "
     "layer count n (multiple of 4, <= 512) chosen so that the relative layer thickness delta = max dz_i/z_i meets a drawn target "
@@ -67,10 +67,15 @@ def make_profiles(c):
     elif fam == "power":
         U = lambda z: 3.0 * (z / 10.0) ** c["m"]
         K = lambda z: 0.3 * z ** c["n"]
+    elif fam == "constflow":
+        # wind and Kz exactly constant with height, only the horizontal diffusivities vary (through kx_exp / ky_off):
+        # a shortcut that takes "u, v, Kz constant" for "the closed form applies" solves another problem
+        U = lambda z: 3.0 + 0.0 * z
+        K = lambda z: KAP * us * c["zm"] + 0.0 * z
     else:
         U = lambda z: us / KAP * np.log(z / z0) + 0.5
         K = lambda z: KAP * us * z
-    ang = lambda z: c["wdir"] + c["turn"] * z
+    ang = lambda z: c["wdir"] + (0.0 if fam == "constflow" else c["turn"]) * z
     # the horizontal diffusivities are not tied to Kz: Kx/Kz follows a weak power of height and Ky has an offset,
     # so neither ratio is constant over the column (nothing in the equation says it is)
     ex, koff, zm = c.get("kx_exp", 0.0), c.get("ky_off", 0.0), c["zm"]
@@ -114,8 +119,11 @@ def _case(draw):
         "lvl_frac": draw(st.sampled_from([0.0, 0.25, 0.5, 1.0])),
         "kx_exp": draw(st.sampled_from([0.0, 0.0, -0.5, -0.2, 0.2, 0.5])), "ky_off": draw(st.sampled_from([0.0, 0.0, 0.3, 1.0])),
     }
+    if draw(st.integers(0, 7)) == 0:
+        c["fam"] = "constflow"
+        c["kx_exp"], c["ky_off"] = draw(st.sampled_from([-0.5, 0.5, 0.2])), draw(st.sampled_from([0.0, 0.3]))
     # horizontally isotropic diffusivity different from Kz, handed over as one array object for Kx and Ky
-    if draw(st.integers(0, 5)) == 0:
+    if c["fam"] != "constflow" and draw(st.integers(0, 5)) == 0:
         c["ay"], c["kx_exp"], c["ky_off"], c["same_kh"] = c["ax"], 0.0, 0.0, True
     c["xmax"] = float(f"{ztop * c['nx'] * draw(gen.logfl(0.5, 10.0)):.6g}")
     c["ymax"] = float(f"{ztop * c['ny'] * draw(gen.logfl(0.5, 10.0)):.6g}")
